@@ -220,6 +220,21 @@ def _run_seq(case: dict) -> list[str]:
                 lines.append(f"sent {len(tr.sent) - before} " + " ".join(core.hexs(x) for x in tr.sent[before:]))
             await ep.aclose()
         _get_loop().run_until_complete(main())
+    elif api == "sync-socket":
+        from easynetwork.lowlevel.api_sync.transports.socket import SocketDatagramTransport
+        peer = socket.socket(socket.AF_INET, socket.SOCK_DGRAM)
+        peer.bind(("127.0.0.1", 0))
+        me = socket.socket(socket.AF_INET, socket.SOCK_DGRAM)
+        me.bind(("127.0.0.1", 0))
+        me.connect(peer.getsockname())
+        ep = DatagramEndpoint(SocketDatagramTransport(me, retry_interval=1.0), proto)
+        try:
+            for d in datagrams:
+                peer.sendto(d, me.getsockname())
+                lines.append(_res_line(lambda: ep.recv_packet(timeout=3.0)))
+        finally:
+            ep.close()
+            peer.close()
     else:
         lines.extend(_run_udp(case, proto, datagrams, to_send, conv))
     return lines
@@ -602,3 +617,10 @@ def generate(rng, tier: str, boost: int):
         yield _gen_queue(rng)
     for _ in range((30 if tier == "quick" else 400) * boost):
         yield _gen_seq(rng, rng.choice(["udp", "audp"]))
+    # datagrams near the maximum UDP payload must not be truncated by the receive buffer size
+    for size in ([1000, 16384, 16385, 40000, 65000] if tier == "quick" else [1000, 8192, 16384, 16385, 20000, 32768, 40000, 65000, 65507]):
+        for api in ("udp", "audp", "sync-socket"):
+            spec = {"k": "line", "newline": "LF", "keep_end": False, "encoding": "ascii", "limit": 1 << 20}
+            p = "x" * size
+            yield {"kind": "seq", "spec": spec, "api": api, "datagrams": [p.encode().hex()], "valid": [sers.enc_val(p)],
+                   "kinds": ["large"], "send": [], "conv": False}
